@@ -19,6 +19,7 @@ import importlib
 import inspect
 import json
 import logging
+import operator
 import os
 import pkgutil
 import sys
@@ -29,7 +30,9 @@ logging.disable(logging.CRITICAL)
 import sc3
 sc3.init('nrt')
 from sc3.base import absobject as aob
+from sc3.base import builtins as bi
 from sc3.synth import ugen as ugn
+from sc3.synth import _graphparam as gpp
 from sc3.synth.synthdef import SynthDef
 from sc3.synth.ugens import line as lne
 import sc3.synth.ugens as ugens_pkg
@@ -134,7 +137,9 @@ def derive_ops():
         elif c.func.attr == '_compose_unop' and nparams == 0:
             unops.append({'kind': 'expr', 'expr': 'a.%s()' % name, 'src': name, 'special': special})
         elif c.func.attr == '_compose_binop' and nparams == 1 and len(c.args) == 2 and isinstance(c.args[1], ast.Name):
-            binops.append({'kind': 'expr', 'expr': 'a.%s(b)' % name, 'src': name, 'special': special})
+            # builtins with a default second operand (round, roundup, trunc) go through their own dispatcher
+            binops.append({'kind': 'expr', 'expr': 'a.%s(b)' % name, 'src': name, 'named': True, 'sel': ast.unparse(sel),
+                           'special': special or bool(tree.args.defaults)})
     return unops, binops
 
 
@@ -219,6 +224,16 @@ def invoke(target, vals):
         cls = getattr(importlib.import_module(target['mod']), target['cls'])
         return getattr(cls, target['sel'])(*vals)
     if k == 'expr':
+        if target.get('level') == 'one' and isinstance(vals[0], (int, float)):
+            # convenience method on a plain-number channel: the library's number-side method
+            rest = eval('(%s,)' % target['expr'].split('(', 1)[1][:-1], {}, dict(zip('abcdef', vals)))
+            if target['src'] == 'madd':     # not a forwarded method: number.madd(mul, add) is MulAdd on the number
+                return ugn.MulAdd.new(vals[0], *rest)
+            return getattr(gpp.ugen_param(vals[0]), target['src'])(*rest)
+        if target.get('named') and isinstance(vals[0], (int, float)):
+            # a plain-number channel has no methods: the library's form of number.op(x) is the builtin op(number, x)
+            # (the selector the method itself hands to _compose_binop: bi.round, operator.and_, ...)
+            return eval(target['sel'], {'bi': bi, 'operator': operator})(*vals)
         return eval(target['expr'], {}, dict(zip('abcdef', vals)))
     raise AssertionError(k)
 
@@ -291,6 +306,25 @@ def run_case(case):
             tab.append({'row': row, 'r': r, 'n': len(us)})
         return tab
 
+    def opinfo(sd):
+        # a binary operator on two units (a path that involves neither numbers nor lists): which opcode,
+        # and which operand becomes which input
+        if target['kind'] != 'expr' or nargs != 2 or target.get('level') == 'one' \
+                or target.get('src') in ('__lt__', '__le__', '__gt__', '__ge__'):     # Python reflects these itself
+            return -1, [1, 2]
+        ua, ub = lne.DC.ar(1), lne.DC.kr(2)
+        try:
+            r = invoke(target, [ua, ub])
+        except Exception:
+            return -1, [1, 2]
+        if type(r) is ugn.BinaryOpUGen and len(r.inputs) == 2:
+            if r.inputs[0] is ua and r.inputs[1] is ub:
+                return r._special_index, [1, 2]
+            if r.inputs[0] is ub and r.inputs[1] is ua:
+                return r._special_index, [2, 1]
+        return -1, [1, 2]
+
+    special, order = in_build(opinfo)
     if target['kind'] == 'out':
         tab = []
     elif target.get('level') == 'one':
@@ -299,7 +333,7 @@ def run_case(case):
         tab = in_build(singles)
     tg = {'kind': target['kind'], 'cls': target.get('cls', ''), 'rate': target.get('rate', ''),
           'expr': target.get('expr', ''), 'nfixed': target.get('nfixed', 0), 'level': target.get('level', 'deep'),
-          'audio': target.get('rate', '') == 'audio',
+          'audio': target.get('rate', '') == 'audio', 'special': special, 'order': order,
           # _multi_new argument j comes from given argument margs[j] (1-based) or is a default text
           'margs': [({'p': m + 1, 'd': ''} if m < nargs else {'p': 0, 'd': target['dfl'][m] or '?'})
                     for m in target.get('margs', [])]}
